@@ -141,6 +141,11 @@ def hostile_environment():
             for cache in (None, {}):
                 try: expand(ab, dict(cfg, cache=cache) if cache is not None else dict(cfg))
                 except Exception: pass
+    # ... and calls that failed half-way (parse errors in the abbreviation, in a nested snippet, in a stylesheet value): nothing of them is kept
+    for ab, cfg in (('ul>li[title="', {}), ('(a+b', {}), ('box', {'snippets': {'box': 'div>menu', 'menu': 'nav>item', 'item': 'li[title="]'}}), ('p{${', {}), ('a{b', {'syntax': 'pug'}),
+                    ('p10(', {'type': 'stylesheet'}), ('c#zz"', {'type': 'stylesheet'}), ('lg(to right, "', {'type': 'stylesheet', 'cache': {}}), ('ul>li*', {'text': ['a', 'b'], 'maxRepeat': 1, 'options': {'output.field': lambda *a, **k: 1 / 0}})):
+        try: expand(ab, cfg)
+        except Exception: pass
 
 
 def shared_cache(cfg):
@@ -148,6 +153,14 @@ def shared_cache(cfg):
     import json
     key = json.dumps({k: v for k, v in cfg.items() if k not in ('text', 'cache', 'maxRepeat')}, sort_keys=True, default=lambda f: getattr(f, '__name__', 'callable'))
     return _ENV['caches'].setdefault(key, {})
+
+
+def outcome_reordered(ab, cfg):
+    """the same configuration as an OrderedDict with its keys (and the keys of its options / snippets / variables) in the opposite order"""
+    import collections
+    def rev(d): return collections.OrderedDict(reversed(list(d.items())))
+    c = rev({k: (rev(v) if k in ('options', 'snippets', 'variables') and isinstance(v, dict) else v) for k, v in cfg.items()})
+    return outcome(ab, c)
 
 
 def outcome_cached(ab, cfg):
@@ -210,6 +223,8 @@ def run(case, prop):
         viol = oracle_C07(ab, o)
         o2 = outcome_cached(ab, mk(case['c']))
         if o2 != o: viol += ['(with a cache shared by earlier calls) ' + v for v in oracle_C07(ab, o2)]
+        o5 = outcome_reordered(ab, mk(case['c']))
+        if o5 != o and o[0] == 'ok' and 'lorem' not in ab.lower().replace('\\', '') and 'lipsum' not in ab.lower().replace('\\', ''): viol += ['order-dependent| expand(%r) depends on the order of the keys of its configuration: %r vs %r' % (ab, o5[1], o[1])]
         if case.get('href'):
             c3 = mk(case['c']); c3['options']['markup.href'] = True
             viol += ['(markup.href on) ' + v for v in oracle_C07(ab, outcome(ab, c3))]
